@@ -60,6 +60,15 @@ fn main() {
             // read -> build -> walk -> write on a size family, in the main thread and in a 2 MiB thread
             let fam = args.get(2).expect("family").clone();
             let n: usize = args.get(3).and_then(|s| s.parse().ok()).unwrap_or(1000);
+            if let Some(f) = fam.strip_prefix("trace:") {
+                // C15 at size: the trace of a string whose cursors lie beyond 16 bits
+                let s = gen::family(f, n);
+                match oracle::trace_check(&t, &s, &format!("family {} with {} atoms ({} characters)", f, n, s.chars().count())) {
+                    Some(Ok(())) => { println!("trace ok characters={}", s.chars().count()); return }
+                    Some(Err(m)) => { println!("trace error {}", m); std::process::exit(1) }
+                    None => { println!("trace error the family string is refused"); std::process::exit(1) }
+                }
+            }
             let s = gen::family(&fam, n);
             let digits = fam == "digits";
             let run = move |s: String| -> Result<usize, String> {
